@@ -173,9 +173,10 @@ def random_model(rnd, size):
                 out.append({'label': rnd.choice(labels)})
             elif k < 0.82:
                 out.append({'return': {'expr': V(rnd.choice(['n', 'k', 'a1']))}} if rnd.random() < 0.6 else {'return': {}})
-            elif k < 0.9 and not in_func:
-                name = rnd.choice(['ff', 'gg'])
-                f = {'name': name, 'statements': stmts(rnd.randint(0, 6), True)}
+            elif k < 0.9 and (not in_func or (depth < 2 and rnd.random() < 0.4)):
+                # (hand-built models may nest function statements: they bind GLOBAL functions wherever they execute)
+                name = rnd.choice(['ff', 'gg', 'hh'])
+                f = {'name': name, 'statements': stmts(rnd.randint(0, 6), True, depth + 1)}
                 if rnd.random() < 0.6:
                     f['args'] = ['a1', 'a2'][:rnd.randint(1, 2)]
                     if rnd.random() < 0.3:
@@ -183,7 +184,7 @@ def random_model(rnd, size):
                 out.append({'function': f})
             else:
                 args = [rnd.choice([V('n'), {'number': 7.0}, {'string': 's'}]) for _ in range(rnd.randint(0, 3))]
-                call = {'function': {'name': rnd.choice(['ff', 'gg']), 'args': args}}
+                call = {'function': {'name': rnd.choice(['ff', 'gg', 'hh']), 'args': args}}
                 out.append({'expr': {'name': 'r', 'expr': call}} if rnd.random() < 0.6 else {'expr': {'expr': call}})
         return out
     return {'statements': stmts(rnd.randint(1, min(40, 4 + 6 * size)), False)}
@@ -275,6 +276,24 @@ def run_shard(ctx, spec):
             if b is None:
                 ctx.discard('indeterminate')
                 return
+            # the host may edit a model in place between executions: the SAME list object, changed, must again run by the statement semantics
+            for _ in range(rnd.choice([0, 1, 2])):
+                stmts_ = model['statements']
+                target = stmts_ if rnd.random() < 0.6 else rnd.choice([s_['function']['statements'] for s_ in stmts_ if 'function' in s_] or [stmts_])
+                op = rnd.random()
+                if op < 0.35 and target:
+                    del target[rnd.randrange(len(target))]
+                elif op < 0.7:
+                    target.insert(rnd.randint(0, len(target)), rnd.choice([{'label': rnd.choice('ABCD')}, log_stmt('edit%d' % len(target)), {'jump': {'label': rnd.choice('ABCD')}}]))
+                elif len(target) > 1:
+                    i, j = rnd.randrange(len(target)), rnd.randrange(len(target))
+                    target[i], target[j] = target[j], target[i]
+                try:
+                    check_model(model, g, 40)
+                except Violation as v:
+                    v.detail['edited_in_place'] = True
+                    v.bucket += ':after-in-place-edit'
+                    raise
             ctx.case(digest([model, g]), takes_jump(model, g, 40), ['random', 'outcome:' + (b[0][0] if b[0][0] == 'ok' else b[0][1][:12])] + classify(model, b),
                      {'model': model, 'globals': g})
         run_hypothesis(ctx, prop, [st.integers(0, 2 ** 32 - 1), st.integers(1, 6)], spec['n'], salt=spec['k'], minimise=minimise)
